@@ -63,6 +63,7 @@ RegV(e) ==
     IF ~ValidReg(c) THEN "InDomain"
     ELSE IF ~(IsTens(e.xnew) /\ Len(e.xnew.shape) = Len(c.xs) + 1 /\ FeatShape(e.xnew) = c.xs
               /\ \A n \in 1..Len(e.xnew.data) : AbsI(e.xnew.data[n]) <= MaxX) THEN "InDomain"
+    ELSE IF e.fit.raised /\ e.fit.exc = "Timeout" THEN "FitHung"      \* the call never returned (worker killed by the watchdog)
     ELSE IF e.fit.raised THEN "ok"      \* the property speaks about fitted models ("after fitting"): a fit that
                                        \* raises exposes nothing and carries no obligation (counted by the harness)
     ELSE IF e.fit.n_iter \notin 1..MaxIter(c.opt) THEN "IterationBudget"
@@ -145,6 +146,7 @@ PlsV(e) ==
     LET c == e.cfg IN
     IF ~ValidPls(c) THEN "InDomain"
     ELSE IF ~(IsIntSeq(e.perm, c.n) /\ {e.perm[k] : k \in 1..c.n} = 0..(c.n - 1) /\ e.yoff \in 1..9 /\ e.mtest \in 1..8) THEN "InDomain"
+    ELSE IF \E f \in {e.base, e.shiftx, e.shifty, e.permfit} : f.raised /\ f.exc = "Timeout" THEN "FitHung"
     ELSE IF e.base.raised \/ e.shiftx.raised \/ e.shifty.raised \/ e.permfit.raised THEN "ok"   \* no fitted model, no obligation
     ELSE IF \E f \in {e.base, e.shiftx, e.shifty, e.permfit} : ~FitShapesOK(c, f, e.mtest) THEN "Shapes"
     ELSE IF \E f \in {e.base, e.shiftx, e.shifty, e.permfit} :
